@@ -1072,6 +1072,128 @@ Section C03.
       apply nt_items_ext; [ intros f x _; apply IHn | exact konst_u_t | reflexivity ].
   Qed.
 
+  (* ---------------------------------------------------------------- *)
+  (* the fuel of the str descent is enough for a class table whose NamedTuple classes are
+     ranked (= do not reach themselves through NamedTuple / container positions): no
+     RecursionError comes out of [ref_dec_str] / [uk_str] *)
+  Section Fuel.
+    Variable rk : string -> nat.
+
+    (* number of NamedTuple classes a str can descend through, starting at a type *)
+    Fixpoint need (t: sty) : nat :=
+      match t with
+      | SList t' | SSet _ t' | STupleVar t' | SOpt t' => need t'
+      | STupleFix ts => (fix go (l: list sty) : nat := match l with [] => O | t' :: r => Nat.max (need t') (go r) end) ts
+      | SNamed c => S (rk c)
+      | _ => O end.
+
+    Hypothesis ranked : forall c k, sfind E KNamed c = Some k ->
+      forall f, In f k.(sc_fields) -> (need f.(sf_ty) <= rk c)%nat.
+
+    Definition nrec {A} (r: res A) : Prop := r <> Exn XRecursion.
+
+    Lemma nrec_bind {A B} (r: res A) (k: A -> res B) : nrec r -> (forall a, nrec (k a)) -> nrec (bind r k).
+    Proof. destruct r as [a|e]; cbn [bind]; intros H1 H2; [apply H2 | intros H; apply H1; inversion H; reflexivity]. Qed.
+
+    Lemma nrec_exn {A B} e : @nrec A (Exn e) -> @nrec B (Exn e).
+    Proof. intros H Hc. apply H. inversion Hc. reflexivity. Qed.
+
+    Lemma nrec_lift {A} (x: option A) : nrec (lift x).
+    Proof. destruct x; intros H; discriminate H. Qed.
+
+    Lemma nrec_coerce sc v : nrec (coerce_s P sc v).
+    Proof.
+      destruct sc; cbn [coerce_s]; try (intros H; discriminate H);
+        destruct v; try (intros H; discriminate H); (apply nrec_bind; [apply nrec_lift | intros a H; discriminate H]).
+    Qed.
+
+    Lemma nrec_mapM {A B} (f: A -> res B) l : (forall x, In x l -> nrec (f x)) -> nrec (mapM f l).
+    Proof.
+      induction l as [|a l IH]; intros H; [intros Hc; discriminate Hc|].
+      cbn [mapM]. pose proof (H a (or_introl eq_refl)) as Ha.
+      destruct (f a) as [y|e]; [|exact (nrec_exn e Ha)].
+      assert (Hl: nrec (mapM f l)) by (apply IH; intros x Hx; apply H; right; exact Hx).
+      destruct (mapM f l) as [ys|e]; [intros Hc; discriminate Hc | exact Hl].
+    Qed.
+
+    Lemma nrec_none_tail_t ts : nrec (none_tail_t ts).
+    Proof.
+      induction ts as [|t ts IH]; cbn [none_tail_t]; [intros H; discriminate H|].
+      destruct (const_ty t); [|intros H; discriminate H]. apply nrec_bind; [exact IH | intros a H; discriminate H].
+    Qed.
+
+    Lemma nrec_nt_exhausted hd rest : nrec (nt_exhausted hd rest).
+    Proof.
+      unfold nt_exhausted. destruct hd; [|intros H; discriminate H].
+      induction rest as [|f r IH]; cbn [nt_defaults]; [intros H; discriminate H|].
+      destruct (sf_default f); [|intros H; discriminate H]. apply nrec_bind; [exact IH | intros a H; discriminate H].
+    Qed.
+
+    Lemma nrec_nt_tail konst miss fds : (forall rest, nrec (miss rest)) -> nrec (nt_tail konst miss fds).
+    Proof.
+      intros Hm. induction fds as [|f r IH]; cbn [nt_tail]; [intros H; discriminate H|].
+      destruct (konst f); [|apply Hm]. destruct (nt_tail konst miss r); [intros H; discriminate H | exact IH].
+    Qed.
+
+    Lemma nrec_nt_items {X} (run: sfield -> X -> res pv) konst miss fds (l: list X) :
+      (forall f x, In f fds -> nrec (run f x)) -> (forall rest, nrec (miss rest)) -> nrec (nt_items run konst miss fds l).
+    Proof.
+      intros Hr Hm. revert fds Hr. induction l as [|x l IH]; intros fds Hr.
+      - destruct fds; cbn [nt_items]; [intros H; discriminate H | apply nrec_nt_tail; exact Hm].
+      - destruct fds as [|f r]; cbn [nt_items]; [intros H; discriminate H|].
+        pose proof (Hr f x (or_introl eq_refl)) as Hx. destruct (run f x) as [y|e]; [|exact (nrec_exn e Hx)].
+        assert (Hl: nrec (nt_items run konst miss r l)) by (apply IH; intros f0 x0 Hf0; apply Hr; right; exact Hf0).
+        destruct (nt_items run konst miss r l); [intros H; discriminate H | exact Hl].
+    Qed.
+
+    Lemma nrec_td_nondict konst fds : nrec (td_nondict konst fds).
+    Proof.
+      unfold td_nondict. apply nrec_bind; [|intros a; destruct (existsb _ _); intros H; discriminate H].
+      induction (td_order fds) as [|f r IH]; cbn [td_go]; [intros H; discriminate H|].
+      unfold td_field. cbn [look].
+      destruct (sf_opt f); [exact IH|].
+      destruct (konst f); cbn [bind]; [|intros H; discriminate H].
+      apply nrec_bind; [exact IH | intros a H; discriminate H].
+    Qed.
+
+    Lemma need_fix_le ts n : (need (STupleFix ts) <= n)%nat -> Forall (fun t' => (need t' <= n)%nat) ts.
+    Proof.
+      induction ts as [|t ts IH]; intros H; [constructor|].
+      cbn [need] in H. constructor; [lia | apply IH; cbn [need]; lia].
+    Qed.
+
+    Theorem ref_dec_str_no_recursion n : forall t s, (need t <= n)%nat -> nrec (ref_dec_str E P n t s).
+    Proof.
+      induction n as [|n IHn].
+      all: induction t as [ | | | | | | m' | k' | e' | t' IHt | fr' t' IHt | t' IHt | ts IHts | kt IHkt vt IHvt | t' IHt | c' | c' | c' ]
+        using sty_ind'; intros s Hn; rewrite ref_dec_str_unfold;
+        try (intros H; discriminate H); try apply nrec_coerce;
+        try (apply nrec_bind; [apply nrec_lift | intros a H; discriminate H]);
+        try (apply IHt; exact Hn);
+        try (destruct (sfind E _ c'); intros H; discriminate H);
+        try (destruct (sfind E _ c'); [apply nrec_td_nondict | intros H; discriminate H]).
+      all: try (apply nrec_bind; [apply nrec_mapM; intros x _; apply IHt; exact Hn
+                                 | intros a; try destruct (forallb hashable a); intros H; discriminate H]).
+      all: try (apply nrec_bind; [|intros a H; discriminate H];
+                pose proof (need_fix_le ts _ Hn) as Hall; clear Hn; generalize (utf8_chars s) as l;
+                induction IHts as [|t1 ts H1 Hts IH]; intros l;
+                [ intros H; discriminate H
+                | inversion Hall as [|? ? Hn1 Hall']; subst; destruct l as [|x l];
+                  [ apply nrec_none_tail_t
+                  | apply nrec_bind; [apply H1; exact Hn1 | intros y; apply nrec_bind; [apply (IH Hall') | intros ys H; discriminate H]] ] ]).
+      - (* a NamedTuple class with no fuel left: excluded by the bound *)
+        cbn [need] in Hn. lia.
+      - destruct (sfind E _ c') as [k|] eqn:Ef; [|intros H; discriminate H].
+        apply nrec_bind; [|intros a H; discriminate H].
+        apply nrec_nt_items; [|apply nrec_nt_exhausted].
+        intros f x Hf. apply IHn. cbn [need] in Hn. pose proof (ranked c' k Ef f Hf). lia.
+    Qed.
+
+    Corollary uk_str_no_recursion t cbn s : (need t <= List.length E)%nat ->
+      uk_str E P (List.length E) (cu cbn t) s <> Exn XRecursion.
+    Proof. intros Hn. rewrite uk_str_ref. apply (ref_dec_str_no_recursion _ t s Hn). Qed.
+  End Fuel.
+
   Lemma uk_unfold d u : uk E P d u =
       match u with
       | UId => Ok d
